@@ -121,6 +121,11 @@ def _comodo(ctx, P):
             ctx.ok("R14.1", "COMODO no centre coordinate", "refused")
         else:
             ctx.report("R14.1", fi, "COMODO no centre coordinate", "an axis without an unshifted coordinate is accepted")
+        outs = run_comodo(P, {Sym("c"): full[Sym("c")], Sym("unrelated"): {"attrs": {"axis": "Y"}, "len": N}})
+        if all(o.kind == "return" and o.value == {"center": Sym("c")} for o in outs):
+            ctx.ok("R14.1", "COMODO axis with a centre coordinate only", "one position")
+        else:
+            ctx.report("R14.1", fi, "COMODO axis with a centre coordinate only", f"an axis that has nothing but its centre coordinate gives {[(o.kind, o.value) for o in outs][:1]}; expected {{'center': c}}")
         outs = run_comodo(P, {Sym("c"): full[Sym("c")]}, axis="Y")
         if all(o.kind == "raise" for o in outs):
             ctx.ok("R14.1", "COMODO axis without coordinates", "refused")
@@ -382,6 +387,24 @@ def _conflicts(ctx, P):
             ctx.ok("R14.4", "autoparse_metadata=False", "parser not consulted")
     except Unmodelled as e:
         ctx.unknown("R14.4", "autoparse_metadata=False", str(e))
+    # Grid(ds) with nothing else: the metadata is parsed (the property speaks of a Grid built "without explicit coords")
+    try:
+        called = []
+
+        def m_parse2(ev, args, kw, node):
+            called.append(1)
+            return (args[0], {"coords": copy.deepcopy(base_coords)})
+
+        ev = Evaluator(P, models={"warnings.warn": lambda ev, a, k, n: None, "metadata_parsers:parse_metadata": m_parse2})
+        dims = (dimsym("AX", "center"), dimsym("AX", "left"))
+        outs = ev.run_paths(init, lambda: dict(self=Obj("Grid", "self", (), {"__class__": "grid:Grid"}), ds=Obj("Dataset", "ds", (), {"dims": dims, "__isinstance__": ("Dataset",)})))
+        built = [o for o in outs if o.kind == "return" and isinstance(o.env.get("self").attrs.get("axes"), dict) and list(o.env.get("self").attrs["axes"]) == [AXs]]
+        if not called or len(built) != len(outs):
+            ctx.report("R14.4", init, "Grid(ds) with no other argument", "the dataset's metadata is not parsed (or its axes are not built) when the caller gives nothing but the dataset" + (f": {[(o.kind, o.value) for o in outs if o not in built][:1]}" if called else ""))
+        else:
+            ctx.ok("R14.4", "Grid(ds) with no other argument", "metadata parsed, axes built from it")
+    except Unmodelled as e:
+        ctx.unknown("R14.4", "Grid(ds) with no other argument", str(e))
 
 
 def check(ctx):
